@@ -8,7 +8,7 @@
    step f o     : what the library does for one public operation (Ok file | Raise).
    run_region   : 0 iff every operation of the run is inside the domain on which well-formedness is
                   proved; 1 = eval whose value does not have the shape of the variable whose metadata it
-                  inherits.  The model describes the code AS REPAIRED by fixes/C01-renameDimensions.patch and
+                  inherits (2 = the completion finding for scalar-returning callables, decided by the Python oracle).  The model describes the code AS REPAIRED by fixes/C01-renameDimensions.patch and
                   fixes/C01-binop-broadcast.patch: renameDimensions and the binary operators need no side
                   condition any more (they raise or return a well-formed file). *)
 From PNC Require Import Base.Util Model.FileStruct Proofs.FileStructProofs.
@@ -42,17 +42,19 @@ Proof. exact trace_wf. Qed.
 Print Assumptions C01_trace_wf_partial.
 
 (* Surviving dimensions keep their unlimited flag (across renameDimensions: the dimension formerly called d
-   is the one now called rn d).  Proved for copy, subsetVariables, renameVariable(s), reorderDimensions, mask,
-   eval, arithmetic (dimension table untouched), insertDimension, removeSingleton and renameDimensions with
-   ANY pairs.  PARTIAL: sliceDimensions, applyAlongDimensions, stack and interpDimension are covered by the
-   correspondence check only.
-   (* UNPROVED: forall f o f', step f o = Ok f' -> unlim_kept_op o (fdims f) (fdims f') = true
-      -- false as stated for sliceDimensions with several index arrays on a file that already has an
-      unlimited dimension called POINTS; true otherwise, not proved for the four operations above. *) *)
+   is the one now called rn d).  Proved for 13 of the 14 operations: copy, subsetVariables, renameVariable(s),
+   reorderDimensions, mask, eval, arithmetic (dimension table untouched), insertDimension, removeSingleton,
+   renameDimensions with ANY pairs, applyAlongDimensions, interpDimension, and sliceDimensions unless several index
+   arrays are used on a file that already has an UNLIMITED dimension called POINTS (slice_unl_ok; POINTS is re-created
+   as an ordinary dimension there).  PARTIAL: stack is covered by the correspondence check only.
+   (* UNPROVED: forall f others d f', impl_stack f others d = Ok f' -> unlim_keptb (fdims f) (fdims f') = true
+      -- believed true for dimension tables without repeated keys (which is all a dict can hold); the model's
+      tables are plain association lists and the statement needs that side condition. *) *)
 Theorem C01_step_unlimited_partial : forall f o f',
   step f o = Ok f' ->
   match o with
-  | ORenameDim _ | OInsert _ _ _ _ _ _ | ORemove _ => true
+  | ORenameDim _ | OInsert _ _ _ _ _ _ | ORemove _ | OApply _ | OInterp _ _ => true
+  | OSlice ss => slice_unl_ok f ss
   | _ => keeps_table o
   end = true ->
   unlim_kept_op o (fdims f) (fdims f') = true.
@@ -82,6 +84,16 @@ Theorem C01_eval_broadcast_refuted : exists f f',
   wfb f = true /\ step f (OEval 16 (EBin 6 11) false) = Ok f' /\ wfb f' = false.
 Proof. exists f_tyx. eexists. vm_compute. repeat split; reflexivity. Qed.
 Print Assumptions C01_eval_broadcast_refuted.
+
+(* COMPLETION clause: applyAlongDimensions(x=np.mean) — a callable func1d returning a scalar, which
+   numpy.apply_along_axis (named in the docstring) accepts — on an existing dimension of a well-formed file RAISES when
+   the axis is not leading (the reduced axis is dropped and the result cannot be assigned into the length-1 axis),
+   although the same call completes on the leading axis *)
+Theorem C01_apply_scalar_completion_refuted : exists f d,
+  wfb f = true /\ has d (fdims f) = true /\ step f (OApply [(d, AScalar)]) = Raise
+  /\ exists d' f', has d' (fdims f) = true /\ step f (OApply [(d', AScalar)]) = Ok f' /\ wfb f' = true.
+Proof. exists f_tyx, 6. vm_compute. repeat split; try reflexivity. exists 4. eexists. repeat split; reflexivity. Qed.
+Print Assumptions C01_apply_scalar_completion_refuted.
 
 (* hence the invariant over arbitrary sequences is refuted as well *)
 Theorem C01_run_wf_refuted : exists f ops f',
